@@ -182,8 +182,11 @@ def run_case(binary, case, cdir):
     if case["wae"]:
         args += ["--warnings-as-errors"]
     try:
+        # 4 runtime workers (>= number of diagnose tasks) instead of one per core: same concurrency structure,
+        # far less thread start-up cost on the shared 16-core machine
+        env = dict(os.environ, TOKIO_WORKER_THREADS="4")
         p = subprocess.run(args, stdout=subprocess.PIPE, stderr=subprocess.PIPE, text=True, errors="replace",
-                           timeout=120, cwd=cdir)
+                           timeout=120, cwd=cdir, env=env)
     except subprocess.TimeoutExpired:
         return {"hang": True, "args": args[1:]}
     text = p.stdout
